@@ -27,7 +27,7 @@ from .canon import canon
 
 from .events import LAZY_GROUPS
 
-GROUP_ORDER = ["mass", "density", "covalent_radius", "crystal_structure", "neutron",
+GROUP_ORDER = ["base", "mass", "density", "covalent_radius", "crystal_structure", "neutron",
                "activation", "xray", "emission", "magnetic_ff", "routes", "calc", "calc_public"]
 
 INIT_ENTRIES = {
@@ -417,6 +417,19 @@ class Node(object):
             keys[k] = canon(fn())
         except Exception as e:  # noqa: BLE001
             keys[k] = ["E", type(e).__name__]
+
+    def dg_base(self, tbl, t, keys):
+        """What a table serves as soon as it exists: the identifying attributes and the valid charges."""
+        g = self._get
+        for el in t:
+            s = "Z%d" % el.number
+            g(keys, s + ".symbol", lambda: el.symbol)
+            g(keys, s + ".name", lambda: el.name)
+            g(keys, s + ".ions", lambda: el.ions)
+            g(keys, s + ".charge", lambda: el.charge)
+        for a in ("D", "T"):
+            g(keys, a, lambda: [getattr(t, a).symbol, getattr(t, a).name, getattr(t, a).isotope,
+                                getattr(t, a).number, getattr(t, a).ions])
 
     def dg_mass(self, tbl, t, keys):
         g = self._get
